@@ -340,7 +340,11 @@ def m_str_cmp(ex, a):
 def iter_next(ex, it):
     if isinstance(it, Agg) and it.ty == 'Range':          # std::ops::Range<usize>: fork on start < end
         st, en = it.fields[0].v, it.fields[1].v
-        if not MM_branch(ex, Bool(z3.ULT(st.bv, en.bv))): return None
+        cs, ce = st.concrete(), en.concrete()
+        if cs is not None and ce is not None:
+            if not cs < ce: return None
+            it.fields[0].v = Int(cs + 1, st.ty); return st
+        if not MM_branch(ex, Bool((st.bv < en.bv) if st.signed else z3.ULT(st.bv, en.bv))): return None
         it.fields[0].v = Int(z3.simplify(st.bv + 1), st.ty)
         return st
     if it.peeked: return it.peeked.pop(0)
@@ -380,6 +384,7 @@ def cloned_gen(ex, src):
         t = x.cell.v if isinstance(x, Ptr) and x.kind == 'ref' else x
         yield t if isinstance(t, Ptr) else clone_value(ex, t)
 def make_iter(ex, v):
+    if isinstance(v, Agg) and v.ty == 'Range': return v          # a Range of any integer type is its own iterator (iter_next steps it)
     t = deref_all(v) if not isinstance(v, (VecV, MapV)) else v
     if isinstance(v, Ptr):
         t = v.cell.v
